@@ -56,19 +56,23 @@ class ScriptedHelper:
         return out.reshape(n * n_linear_samples_per, 7), ll
 
 
-def scripted_library(n, ln_prior=True, extra_nonlinear=True):
-    """JokerSamples whose row i has P = i+1 d and ln_prior = -(i + 0.25) (injective in i)."""
+def scripted_library(n, ln_prior=True, units=None):
+    """JokerSamples whose row i has P = i+1 d and ln_prior = -(i + 0.25) (injective in i).  `units` may name
+    other (equivalent) units for the stored columns, e.g. {"P": "yr", "omega": "deg", "M0": "deg", "s": "m/s"}."""
     import astropy.units as u
 
     import thejoker as tj
 
+    units = units or {}
+    un = {"P": u.Unit(units.get("P", "d")), "omega": u.Unit(units.get("omega", "rad")), "M0": u.Unit(units.get("M0", "rad")),
+          "s": u.Unit(units.get("s", "km/s"))}
     s = tj.JokerSamples()
     i = np.arange(n, dtype=float)
-    s["P"] = (i + 1) * u.day
+    s["P"] = ((i + 1) * u.day).to(un["P"])
     s["e"] = (i % 7) / 10.0
-    s["omega"] = (0.01 * i) * u.rad
-    s["M0"] = (0.02 * i + 0.5) * u.rad
-    s["s"] = (0.5 * (i % 3)) * u.km / u.s
+    s["omega"] = ((0.01 * i) * u.rad).to(un["omega"])
+    s["M0"] = ((0.02 * i + 0.5) * u.rad).to(un["M0"])
+    s["s"] = ((0.5 * (i % 3)) * u.km / u.s).to(un["s"])
     if ln_prior:
         s["ln_prior"] = -(i + 0.25)
     return s
